@@ -58,6 +58,7 @@ type target struct {
 	// is wrapped in (quote ...).
 	Raw    bool
 	minReq int      // documented number of required arguments
+	maxArgs int     // documented maximum number of arguments, -1 = unlimited
 	keys   []string // documented &key names
 	skips  bool     // the function skips evaluation of at least one argument
 }
@@ -104,16 +105,25 @@ func loadTargets() {
 				nDenied++
 				continue
 			}
-			t := target{Fn: fn, Pkg: e.pkg, Name: e.fi.Name}
+			t := target{Fn: fn, Pkg: e.pkg, Name: e.fi.Name, maxArgs: -1}
 			if e.fi.Doc != nil {
+				t.maxArgs = 0
 				state := 0
 				for _, a := range e.fi.Doc.Args {
 					switch strings.ToLower(a.Name) {
-					case "&optional", "&rest", "&body", "&aux":
+					case "&optional":
 						state = 1
+						continue
+					case "&rest", "&body":
+						state = 3
+						t.maxArgs = -1
+						continue
+					case "&aux":
+						state = 4
 						continue
 					case "&key":
 						state = 2
+						t.maxArgs = -1
 						continue
 					case "&allow-other-keys":
 						continue
@@ -121,6 +131,13 @@ func loadTargets() {
 					switch state {
 					case 0:
 						t.minReq++
+						if 0 <= t.maxArgs {
+							t.maxArgs++
+						}
+					case 1:
+						if 0 <= t.maxArgs {
+							t.maxArgs++
+						}
 					case 2:
 						t.keys = append(t.keys, strings.ToLower(a.Name))
 					}
@@ -195,9 +212,42 @@ func argMatch(pat, arg string) bool {
 }
 
 func skipped(fn string, raw bool, args []string) string {
+	if why := byDefinition(fn, raw, args); why != "" {
+		return why
+	}
 	for i := range skipTable {
 		if skipTable[i].matches(fn, raw, args) {
 			return skipTable[i].Finding
+		}
+	}
+	return ""
+}
+
+// byDefinition: calls the language defines as non-terminating (they are not
+// findings). (loop form...) without loop keywords repeats for ever; dotimes
+// with a count of 2^62 counts that far ((dotimes '4611686018427387904) reads
+// as (dotimes (quote 4611686018427387904)): variable quote, count 2^62).
+func byDefinition(fn string, raw bool, args []string) string {
+	switch fn {
+	case "common-lisp:loop":
+		// slip's loop is the simple loop (documented): it ends only through
+		// return or a condition. Only calls whose first form signals at once
+		// are generated: an unbound symbol, or a list that is not a call.
+		if raw && 0 < len(args) {
+			switch args[0] {
+			case "sym", "fsym", "list3", "list1", "dotted", "dotted3", "alist", "plist", "nested":
+				return ""
+			}
+		}
+		return "by-definition:simple-loop"
+	case "gi:range":
+		// documented: over a channel the iteration ends when the channel is closed
+		if 2 <= len(args) && args[1] == "channel" {
+			return "by-definition:range-over-open-channel"
+		}
+	case "common-lisp:dotimes":
+		if !raw && 0 < len(args) && args[0] == "big62" {
+			return "by-definition:dotimes-2^62"
 		}
 	}
 	return ""
